@@ -117,7 +117,7 @@ Proof.
     assert (Hne : a ++ c_str (this_cache2 c) ++ b <> []).
     { unfold this_cache2. rewrite c_str_cons_space. destruct a; discriminate. }
     destruct (a ++ c_str (this_cache2 c) ++ b) as [|x s] eqn:E; [contradiction|].
-    apply is_substr_spec. exists a, b. exact E.
+    apply is_substr_spec. exists a, b. symmetry. exact E.
 Qed.
 
 Lemma nonul_this_cache2 c : nonul (c_host c) = true -> nonul (c_app c) = true -> nonul (this_cache2 c) = true.
@@ -179,4 +179,339 @@ Lemma via_round_trip c major minor hs0 hs h post :
 Proof.
   intros Hh Ha Hin Hv Hval. destruct (fwd_via_shape c major minor hs0 Hh Ha) as [pre [Hpre Hf]].
   apply (own_entry_detected c hs h pre post Hh Ha Hin Hv Hpre). rewrite Hval, Hf. now rewrite <- app_assoc.
+Qed.
+
+(* ================= the decision ================= *)
+Definition is_local (o : outcome) : bool := match o with Local _ => true | Forward _ _ _ => false end.
+
+(* a detected loop is answered locally unless the store lookup yields a stale entry *)
+Lemma loop_not_forwarded_partial c m major minor cache nocache hs :
+  loop_detected c hs = true ->
+  cache <> CStale \/ nocache = true ->
+  exists st, handle c m major minor cache nocache hs = Local st.
+Proof.
+  intros Hl Hc. unfold handle, process_miss. rewrite Hl.
+  destruct (is_options m && (mf_first hs =? 0)%Z); [eexists; reflexivity|].
+  destruct (is_trace m); [destruct (mf_first hs =? 0)%Z; eexists; reflexivity|].
+  destruct nocache; [eexists; reflexivity|].
+  destruct cache; try (eexists; reflexivity). destruct Hc as [Hc|Hc]; [contradiction|discriminate].
+Qed.
+
+(* ... and the only way a detected loop is forwarded is the revalidation of a stale hit *)
+Lemma loop_forwarded_only_stale c m major minor cache nocache hs cnd mfs via :
+  loop_detected c hs = true ->
+  handle c m major minor cache nocache hs = Forward cnd mfs via ->
+  cache = CStale /\ nocache = false /\ cnd = true /\ is_trace m = false.
+Proof.
+  intros Hl. unfold handle, process_miss, process_expired. rewrite Hl.
+  destruct (is_options m && (mf_first hs =? 0)%Z); [discriminate|].
+  destruct (is_trace m); [destruct (mf_first hs =? 0)%Z; discriminate|].
+  destruct nocache; [discriminate|].
+  destruct cache; try discriminate. intros H. injection H as H1 H2 H3. subst cnd. repeat split; reflexivity.
+Qed.
+
+(* without a detected loop nothing is refused with 403 *)
+Lemma no_loop_no_403 c m major minor cache nocache hs :
+  loop_detected c hs = false -> handle c m major minor cache nocache hs <> Local st_forbidden.
+Proof.
+  intros Hl. unfold handle, process_miss, process_expired. rewrite Hl.
+  destruct (is_options m && (mf_first hs =? 0)%Z); [discriminate|].
+  destruct (is_trace m); [destruct (mf_first hs =? 0)%Z; discriminate|].
+  destruct nocache; [discriminate|]. destruct cache; discriminate.
+Qed.
+
+(* the property's first sentence for this Squid's own entry, as far as it holds *)
+Lemma own_via_not_forwarded_partial c m major minor cache nocache hs h pre post :
+  nonul (c_host c) = true -> nonul (c_app c) = true ->
+  In h hs -> is_via h = true -> nonul pre = true ->
+  h_value h = pre ++ this_cache2 c ++ post ->
+  cache <> CStale \/ nocache = true ->
+  exists st, handle c m major minor cache nocache hs = Local st.
+Proof.
+  intros Hh Ha Hin Hv Hpre Hval Hc. apply loop_not_forwarded_partial; [|exact Hc].
+  eapply own_entry_detected; eassumption.
+Qed.
+
+(* what was forwarded by this Squid and comes back (possibly extended by later hops, in any of several Via fields)
+   is refused: 403, or a local answer for OPTIONS/TRACE with Max-Forwards 0, or a fresh hit *)
+Lemma returned_request_not_forwarded_partial c major minor hs0 m' major' minor' cache nocache hs h post :
+  nonul (c_host c) = true -> nonul (c_app c) = true ->
+  In h hs -> is_via h = true ->
+  h_value h = fwd_via c major minor hs0 ++ post ->
+  cache <> CStale \/ nocache = true ->
+  exists st, handle c m' major' minor' cache nocache hs = Local st.
+Proof.
+  intros Hh Ha Hin Hv Hval Hc. apply loop_not_forwarded_partial; [|exact Hc].
+  eapply via_round_trip; eassumption.
+Qed.
+
+(* every forwarded request carries the received Via list followed by this Squid's entry *)
+Lemma forwarded_via c m major minor cache nocache hs cnd mfs via :
+  handle c m major minor cache nocache hs = Forward cnd mfs via ->
+  via = fwd_via c major minor hs /\ mfs = fwd_mfs m hs.
+Proof.
+  unfold handle, process_miss, process_expired.
+  destruct (is_options m && (mf_first hs =? 0)%Z); [discriminate|].
+  destruct (is_trace m).
+  - destruct (mf_first hs =? 0)%Z; [discriminate|]. destruct (loop_detected c hs); [discriminate|].
+    intros H; injection H as _ H2 H3; split; congruence.
+  - destruct nocache.
+    + destruct (loop_detected c hs); [discriminate|]. intros H; injection H as _ H2 H3; split; congruence.
+    + destruct cache.
+      * destruct (loop_detected c hs); [discriminate|]. intros H; injection H as _ H2 H3; split; congruence.
+      * discriminate.
+      * intros H; injection H as _ H2 H3; split; congruence.
+Qed.
+
+(* ---------- concrete witnesses (host verif.test, the tree's own application string) ---------- *)
+Definition w_host : bytes := map N.of_nat [118;101;114;105;102;46;116;101;115;116]%nat.          (* verif.test *)
+Definition w_HOST : bytes := map N.of_nat [86;69;82;73;70;46;84;69;83;84]%nat.                   (* VERIF.TEST *)
+Definition w_cfg : cfg := cfg_of w_host.
+Definition w_via_name : bytes := map N.of_nat [86;105;97]%nat.                                   (* Via *)
+Definition w_mf_name : bytes := map N.of_nat [77;97;120;45;70;111;114;119;97;114;100;115]%nat.   (* Max-Forwards *)
+Definition w_11 : bytes := [49; 46; 49; 32].                                                     (* "1.1 " *)
+Definition mk_via (v : bytes) : hdr := {| h_name := w_via_name; h_value := v |}.
+Definition mk_mf (v : bytes) : hdr := {| h_name := w_mf_name; h_value := v |}.
+
+(* F16: stale hit + exactly this Squid's own Via entry => revalidated upstream *)
+Lemma own_via_stale_hit_refuted :
+  exists c hs h, In h hs /\ is_via h = true /\ h_value h = w_11 ++ this_cache c /\ loop_detected c hs = true /\
+    is_local (handle c M_GET 1 1 CStale false hs) = false.
+Proof.
+  exists w_cfg, [mk_via (w_11 ++ this_cache w_cfg)], (mk_via (w_11 ++ this_cache w_cfg)).
+  split; [left; reflexivity|]. vm_compute. repeat split; reflexivity.
+Qed.
+
+(* F15a: own host name in another letter case (host names are case-insensitive) => forwarded on a miss *)
+Lemma own_via_other_case_refuted :
+  exists c hs h host', In h hs /\ is_via h = true /\ ci_eqb host' (c_host c) = true /\
+    h_value h = w_11 ++ host' ++ [32; 40] ++ c_app c ++ [41] /\
+    is_local (handle c M_GET 1 1 CNone false hs) = false.
+Proof.
+  exists w_cfg, [mk_via (w_11 ++ w_HOST ++ [32; 40] ++ c_app w_cfg ++ [41])],
+         (mk_via (w_11 ++ w_HOST ++ [32; 40] ++ c_app w_cfg ++ [41])), w_HOST.
+  split; [left; reflexivity|]. vm_compute. repeat split; reflexivity.
+Qed.
+
+(* F15b: own entry whose comment was dropped by an intermediary ("1.1 verif.test") => forwarded on a miss *)
+Lemma own_via_without_comment_refuted :
+  exists c hs h, In h hs /\ is_via h = true /\ h_value h = w_11 ++ c_host c /\
+    is_local (handle c M_GET 1 1 CNone false hs) = false.
+Proof.
+  exists w_cfg, [mk_via (w_11 ++ c_host w_cfg)], (mk_via (w_11 ++ c_host w_cfg)).
+  split; [left; reflexivity|]. vm_compute. repeat split; reflexivity.
+Qed.
+
+(* ================= Max-Forwards ================= *)
+Lemma mf_zero_local c m major minor cache nocache hs :
+  is_options m || is_trace m = true -> mf_first hs = 0%Z ->
+  handle c m major minor cache nocache hs = Local (if is_options m then st_not_implemented else st_ok).
+Proof.
+  intros Hm H0. unfold handle. rewrite H0. change (0 =? 0)%Z with true.
+  destruct m; try discriminate Hm; reflexivity.
+Qed.
+
+(* conversely, OPTIONS is answered 501 / TRACE echoed only when the first Max-Forwards reads as 0 *)
+Lemma local_501_only_mf_zero c m major minor cache nocache hs :
+  handle c m major minor cache nocache hs = Local st_not_implemented -> is_options m = true /\ mf_first hs = 0%Z.
+Proof.
+  unfold handle, process_miss, process_expired, st_not_implemented, st_ok, st_forbidden.
+  destruct m; cbn [is_options is_trace andb].
+  1-5: (intros H; exfalso;
+        destruct nocache; [destruct (loop_detected c hs); discriminate H|];
+        destruct cache; [destruct (loop_detected c hs); discriminate H|discriminate H|discriminate H]).
+  - destruct (mf_first hs =? 0)%Z eqn:E0; [intros _; split; [reflexivity|lia]|].
+    intros H; exfalso.
+    destruct nocache; [destruct (loop_detected c hs); discriminate H|].
+    destruct cache; [destruct (loop_detected c hs); discriminate H|discriminate H|discriminate H].
+  - destruct (mf_first hs =? 0)%Z; [discriminate|]. destruct (loop_detected c hs); discriminate.
+Qed.
+
+(* parse_offset stays inside int64 *)
+Lemma parse_offset_range v x : parse_offset v = Some x -> (llong_min <= x <= llong_max)%Z.
+Proof.
+  unfold parse_offset.
+  destruct (match skip_space (c_str v) with
+            | [] => (false, skip_space (c_str v))
+            | ch :: r => if ch =? 45 then (true, r) else if ch =? 43 then (false, r) else (false, skip_space (c_str v))
+            end) as [neg l1].
+  destruct (digits_val l1 0%Z false) as [a seen]. destruct (negb seen); [discriminate|].
+  destruct ((((if neg then (- a)%Z else a) <? llong_min)%Z || (llong_max <? (if neg then (- a)%Z else a))%Z)) eqn:E; [discriminate|].
+  intros H; injection H as H; subst x. lia.
+Qed.
+
+Lemma entry_int64_range h : (llong_min <= entry_int64 h <= llong_max)%Z.
+Proof.
+  unfold entry_int64. destruct (parse_offset (h_value h)) as [x|] eqn:E; [apply (parse_offset_range _ _ E)|].
+  vm_compute. split; discriminate.
+Qed.
+
+(* every Max-Forwards value sent upstream is a received value minus one: never negative, never the received value,
+   computed without leaving int64 *)
+Lemma fwd_mfs_entries_sound es x :
+  In x (fwd_mfs_entries es) -> exists e, In e es /\ entry_int64 e = (x + 1)%Z /\ (0 <= x < llong_max)%Z.
+Proof.
+  induction es as [|e r IH]; cbn [fwd_mfs_entries]; [intros []|].
+  intros H. apply in_app_or in H. destruct H as [H|H].
+  - destruct (0 <? entry_int64 e)%Z eqn:E; [|destruct H]. destruct H as [H|[]].
+    exists e. pose proof (entry_int64_range e). split; [left; reflexivity|]. lia.
+  - destruct (IH H) as [e' [Hin Hx]]. exists e'. split; [right; exact Hin|exact Hx].
+Qed.
+
+Lemma fwd_mfs_sound m hs x :
+  In x (fwd_mfs m hs) ->
+  is_trace m || is_options m = true /\
+  exists e, In e hs /\ is_mf e = true /\ entry_int64 e = (x + 1)%Z /\ (0 <= x < llong_max)%Z.
+Proof.
+  unfold fwd_mfs. destruct (is_trace m || is_options m); [|intros []]. intros H. split; [reflexivity|].
+  destruct (fwd_mfs_entries_sound _ _ H) as [e [Hin Hx]]. apply filter_In in Hin. exists e. tauto.
+Qed.
+
+Lemma forwarded_mfs_sound c m major minor cache nocache hs cnd mfs via x :
+  handle c m major minor cache nocache hs = Forward cnd mfs via -> In x mfs ->
+  is_trace m || is_options m = true /\
+  exists e, In e hs /\ is_mf e = true /\ parse_offset (h_value e) = Some (x + 1)%Z /\ (0 <= x < llong_max)%Z.
+Proof.
+  intros H Hx. apply forwarded_via in H. destruct H as [_ Hm]. subst mfs.
+  destruct (fwd_mfs_sound _ _ _ Hx) as [Hk [e [Hin [Hmf [He Hr]]]]]. split; [exact Hk|].
+  exists e. repeat split; try assumption; try lia.
+  unfold entry_int64 in He. destruct (parse_offset (h_value e)) as [y|]; [now rewrite He | lia].
+Qed.
+
+(* requests other than TRACE/OPTIONS never carry Max-Forwards upstream *)
+Lemma other_methods_no_mf m hs : is_trace m || is_options m = false -> fwd_mfs m hs = [].
+Proof. unfold fwd_mfs. intros ->. reflexivity. Qed.
+
+(* one Max-Forwards field reading n > 0 on a forwarded TRACE/OPTIONS: exactly n-1 goes upstream *)
+Lemma single_mf_decremented c m major minor nocache hs e n :
+  is_options m || is_trace m = true ->
+  filter is_mf hs = [e] -> parse_offset (h_value e) = Some n -> (0 < n)%Z ->
+  loop_detected c hs = false ->
+  handle c m major minor CNone nocache hs = Forward false [(n - 1)%Z] (fwd_via c major minor hs).
+Proof.
+  intros Hm Hf Hp Hn Hl. unfold handle, process_miss, mf_first, fwd_mfs. rewrite Hf, Hl. cbn [fwd_mfs_entries].
+  unfold entry_int64. rewrite Hp.
+  destruct (n =? 0)%Z eqn:E0; [lia|]. destruct (0 <? n)%Z eqn:E1; [|lia].
+  rewrite andb_false_r. destruct m; try discriminate Hm; cbn [is_trace is_options orb app]; [destruct nocache|]; reflexivity.
+Qed.
+
+(* ---------- canonical decimals are read back as their value (strtoll model vs "%d" model) ---------- *)
+Definition dstep (a : Z) (d : N) : Z := (a * 10 + Z.of_N (d - 48))%Z.
+
+Lemma digits_val_app ds : forall rest a s,
+  forallb is_digit ds = true ->
+  digits_val (ds ++ rest) a s = digits_val rest (fold_left dstep ds a) (s || negb (match ds with [] => true | _ => false end)).
+Proof.
+  induction ds as [|d ds IH]; intros rest a s Hd; cbn [app fold_left].
+  - now rewrite orb_false_r.
+  - cbn [forallb] in Hd. apply andb_true_iff in Hd. destruct Hd as [Hd Hds].
+    cbn [digits_val]. rewrite Hd. rewrite (IH rest _ true Hds). cbn [orb negb]. rewrite orb_true_r. reflexivity.
+Qed.
+
+(* dec_fuel with enough fuel prepends a non-empty all-digit string whose value is n *)
+Lemma dec_fuel_spec f : forall n acc, n < 2 ^ N.of_nat (S f) ->
+  exists ds p, dec_fuel (S f) n acc = ds ++ acc /\ forallb is_digit ds = true /\ ds <> [] /\
+               forall a, fold_left dstep ds a = (a * p + Z.of_N n)%Z.
+Proof.
+  induction f as [|f IH]; intros n acc Hn.
+  - change (2 ^ N.of_nat 1) with 2 in Hn. cbn [dec_fuel].
+    assert (E : n / 10 =? 0 = true) by lia. rewrite E.
+    exists [48 + n mod 10], 10%Z. repeat split.
+    + cbn [forallb]. unfold is_digit. lia.
+    + discriminate.
+    + intros a. cbn [fold_left]. unfold dstep. lia.
+  - remember (S f) as f1. cbn [dec_fuel].
+    destruct (n / 10 =? 0) eqn:E.
+    + exists [48 + n mod 10], 10%Z. repeat split.
+      * cbn [forallb]. unfold is_digit. lia.
+      * discriminate.
+      * intros a. cbn [fold_left]. unfold dstep. lia.
+    + assert (Hn' : n / 10 < 2 ^ N.of_nat f1).
+      { subst f1. rewrite Nat2N.inj_succ, N.pow_succ_r' in Hn. lia. }
+      subst f1. destruct (IH (n / 10) ((48 + n mod 10) :: acc) Hn') as [ds [p [Hds [Hall [Hne Hval]]]]].
+      exists (ds ++ [48 + n mod 10]), (p * 10)%Z. repeat split.
+      * rewrite Hds. now rewrite <- app_assoc.
+      * rewrite forallb_app, Hall. cbn [forallb]. unfold is_digit. lia.
+      * destruct ds; discriminate.
+      * intros a. rewrite fold_left_app, Hval. cbn [fold_left]. unfold dstep. nia.
+Qed.
+
+Lemma dec_N_spec n :
+  exists ds p, dec_N n = ds /\ forallb is_digit ds = true /\ ds <> [] /\ forall a, fold_left dstep ds a = (a * p + Z.of_N n)%Z.
+Proof.
+  unfold dec_N.
+  assert (Hn : n < 2 ^ N.of_nat (S (N.to_nat (N.size n)))).
+  { rewrite Nat2N.inj_succ, N2Nat.id, N.pow_succ_r'. pose proof (N.size_gt n). lia. }
+  destruct (dec_fuel_spec (N.to_nat (N.size n)) n [] Hn) as [ds [p [Hds H]]].
+  exists ds, p. rewrite Hds, app_nil_r. split; [reflexivity|exact H].
+Qed.
+
+Lemma digits_not_space : forallb (fun d => negb (c_isspace d)) [48;49;50;51;52;53;54;55;56;57] = true.
+Proof. vm_compute. reflexivity. Qed.
+
+Lemma digit_facts d : is_digit d = true -> c_isspace d = false /\ nz d = true /\ (d =? 45) = false /\ (d =? 43) = false.
+Proof.
+  intros H. unfold is_digit in H. assert (Hin : In d [48;49;50;51;52;53;54;55;56;57]) by (cbn [In]; lia).
+  pose proof digits_not_space as Hs. rewrite forallb_forall in Hs. specialize (Hs d Hin).
+  unfold nz. repeat split; try lia. destruct (c_isspace d); [discriminate|reflexivity].
+Qed.
+
+Lemma digits_nonul ds : forallb is_digit ds = true -> nonul ds = true.
+Proof.
+  unfold nonul. induction ds as [|d ds IH]; cbn [forallb]; [reflexivity|]. intros H. apply andb_true_iff in H. destruct H as [Hd Hds].
+  destruct (digit_facts d Hd) as [_ [Hz _]]. rewrite Hz, (IH Hds). reflexivity.
+Qed.
+
+(* "Max-Forwards: <n printed in decimal>" is read as n, for every n that fits int64 *)
+Lemma parse_offset_decimal n : (Z.of_N n <= llong_max)%Z -> parse_offset (dec_N n) = Some (Z.of_N n).
+Proof.
+  intros Hmax. destruct (dec_N_spec n) as [ds [p [Hds [Hall [Hne Hval]]]]]. rewrite Hds.
+  unfold parse_offset. rewrite (c_str_nonul ds (digits_nonul ds Hall)).
+  destruct ds as [|d ds']; [contradiction|].
+  pose proof Hall as Hall'. cbn [forallb] in Hall'. apply andb_true_iff in Hall'. destruct Hall' as [Hd _].
+  destruct (digit_facts d Hd) as [Hsp [_ [Hm Hp]]].
+  cbn [skip_space]. rewrite Hsp, Hm, Hp.
+  rewrite <- (app_nil_r (d :: ds')). rewrite (digits_val_app (d :: ds') [] 0%Z false Hall). cbn [digits_val orb negb].
+  rewrite Hval. cbn [negb].
+  assert (Hmin : (llong_min <= 0)%Z) by (vm_compute; discriminate).
+  destruct (((0 * p + Z.of_N n <? llong_min)%Z || (llong_max <? 0 * p + Z.of_N n)%Z)) eqn:E; [lia|].
+  f_equal. lia.
+Qed.
+
+(* ... and one above INT64_MAX is not read at all (strtoll ERANGE): getInt64 gives -1 *)
+Lemma parse_offset_beyond_int64 n : (llong_max < Z.of_N n)%Z -> parse_offset (dec_N n) = None.
+Proof.
+  intros Hmax. destruct (dec_N_spec n) as [ds [p [Hds [Hall [Hne Hval]]]]]. rewrite Hds.
+  unfold parse_offset. rewrite (c_str_nonul ds (digits_nonul ds Hall)).
+  destruct ds as [|d ds']; [contradiction|].
+  pose proof Hall as Hall'. cbn [forallb] in Hall'. apply andb_true_iff in Hall'. destruct Hall' as [Hd _].
+  destruct (digit_facts d Hd) as [Hsp [_ [Hm Hp]]].
+  cbn [skip_space]. rewrite Hsp, Hm, Hp.
+  rewrite <- (app_nil_r (d :: ds')). rewrite (digits_val_app (d :: ds') [] 0%Z false Hall). cbn [digits_val orb negb].
+  rewrite Hval. cbn [negb].
+  destruct (((0 * p + Z.of_N n <? llong_min)%Z || (llong_max <? 0 * p + Z.of_N n)%Z)) eqn:E; [reflexivity|lia].
+Qed.
+
+(* the property's Max-Forwards sentence for decimal values that fit int64 *)
+Lemma maxforwards_decimal_partial c m major minor nocache hs e n :
+  is_options m || is_trace m = true ->
+  filter is_mf hs = [e] -> h_value e = dec_N n -> (Z.of_N n <= llong_max)%Z ->
+  loop_detected c hs = false ->
+  handle c m major minor CNone nocache hs =
+    if n =? 0 then Local (if is_options m then st_not_implemented else st_ok)
+    else Forward false [(Z.of_N n - 1)%Z] (fwd_via c major minor hs).
+Proof.
+  intros Hm Hf Hv Hmax Hl. pose proof (parse_offset_decimal n Hmax) as Hp. rewrite <- Hv in Hp.
+  destruct (n =? 0) eqn:E0.
+  - apply mf_zero_local; [exact Hm|]. unfold mf_first, entry_int64. rewrite Hf, Hp. lia.
+  - apply single_mf_decremented; try assumption. lia.
+Qed.
+
+(* beyond int64 the field is dropped, not decremented: OPTIONS with Max-Forwards: 9223372036854775808 *)
+Lemma maxforwards_beyond_int64_refuted :
+  exists c hs e n, filter is_mf hs = [e] /\ h_value e = dec_N n /\ (llong_max < Z.of_N n)%Z /\ loop_detected c hs = false /\
+    handle c M_OPTIONS 1 1 CNone false hs = Forward false [] (fwd_via c 1 1 hs).
+Proof.
+  exists w_cfg, [mk_mf (dec_N 9223372036854775808)], (mk_mf (dec_N 9223372036854775808)), 9223372036854775808.
+  vm_compute. repeat split; reflexivity.
 Qed.
